@@ -30,7 +30,7 @@ ASSUMPTIONS = ["values written are inside the declared format's range (out-of-ra
                "are C01's subject)", "fixed-point values with at most 5 fractional digits"]
 
 SCALAR = ["B", "H", "I", "Q", "b", "h", "i", "q", "x"]
-MULTI = ["3B", "4H", "16I", "5s", "2q"]
+MULTI = ["3B", "4H", "16I", "5s", "2q", "BI", "HQ", "BHI"]   # the last three with native padding
 
 
 def fsize(fmt):
@@ -55,6 +55,8 @@ def draw_value(tape, fmt):
         return draw_scalar(tape, fmt)
     if fmt.endswith("s"):
         return tape.bytes("c08/bytes", int(fmt[:-1]))
+    if not fmt[0].isdigit():      # heterogeneous: one element per letter
+        return tuple(draw_scalar(tape, f) for f in fmt)
     n, f = int(fmt[:-1]), fmt[-1]
     return tuple(draw_scalar(tape, f) for _ in range(n))
 
@@ -102,7 +104,9 @@ def run(tape, scenario, want_c10=False):
         for _ in range(nvars):
             multi = allow_multi and tape.chance("c08/multi", 20)
             fmt = tape.pick("c08/mfmt", MULTI) if multi else tape.pick("c08/fmt", SCALAR)
-            pc = pmap is not None and percpu_ok and fmt in SCALAR and tape.chance("c08/percpu-var", 40)
+            # (multi-element per-CPU variables can only be read from Python: a tuple per CPU)
+            pc = pmap is not None and percpu_ok and (fmt in SCALAR or fmt in ("3B", "4H", "2q")) \
+                and tape.chance("c08/percpu-var", 40)
             name = new_name()
             ns[name] = (pmap if pc else amap).globalVar(fmt)
             decls.append((holder, name, fmt, "percpu" if pc else "array"))
@@ -212,7 +216,8 @@ def run(tape, scenario, want_c10=False):
             model = {}
             for h, n, f, k in decls:
                 zero = 0 if f in SCALAR else (bytes(int(f[:-1])) if f.endswith("s")
-                                              else tuple([0] * int(f[:-1])))
+                                              else tuple([0] * (int(f[:-1]) if f[0].isdigit()
+                                                                else len(f))))
                 if k == "array":
                     model[(h, n)] = zero
                 else:
@@ -291,6 +296,24 @@ def run(tape, scenario, want_c10=False):
                         viol("percpu-cpu-count", f"{n}: Python sees {ncpu} CPUs, {online} are "
                              f"online ({possible} possible)")
                         break
+                    if tape.chance("c08/percpu-by-iteration", 40):
+                        # the same values by iterating over the variable (sum(), list())
+                        try:
+                            listed = list(seq)
+                        except Exception as e:
+                            viol("percpu-read-failed", f"{n}: list(): {type(e).__name__}: {e}",
+                                 more_possible_than_online=possible > online)
+                            break
+                        try:
+                            indexed = [seq[c] for c in range(len(listed))]
+                        except Exception:
+                            indexed = None
+                        if indexed is not None and not all(
+                                same(f, a, b) for a, b in zip(listed, indexed)):
+                            viol("percpu-read-differs", f"{n} ({f}): iterating gives "
+                                 f"{listed[:4]!r}, indexing {indexed[:4]!r}",
+                                 more_possible_than_online=possible > online)
+                            break
                     for c in range(online):
                         try:
                             got = seq[c]
